@@ -236,7 +236,7 @@ func (s *sched) threadMain(t *Thread, body func()) {
 		// normal exit
 		t.done = true
 		if len(t.held) > 0 || t.rheld > 0 {
-			s.fail("lockleak", "lockleak:exit:"+t.Name, fmt.Sprintf("thread %d (%s) exited holding %d mutex(es): %s", t.ID, t.Name, len(t.held)+t.rheld, heldNames(t)))
+			s.fail("lockleak", "lockleak:exit:"+StripLine(t.Name), fmt.Sprintf("thread %d (%s) exited holding %d mutex(es): %s", t.ID, t.Name, len(t.held)+t.rheld, heldNames(t)))
 			s.endExecution(t)
 			close(t.exited)
 			return
@@ -256,7 +256,7 @@ func (s *sched) threadMain(t *Thread, body func()) {
 func heldNames(t *Thread) string {
 	var n []string
 	for _, m := range t.held {
-		n = append(n, m.site)
+		n = append(n, m.site.String())
 	}
 	return strings.Join(n, ",")
 }
@@ -626,7 +626,7 @@ func PendingTimerNames() []string {
 		return nil
 	}
 	for _, t := range S.timers.items {
-		out = append(out, t.site)
+		out = append(out, t.site.Func())
 	}
 	sort.Strings(out)
 	return out
@@ -638,25 +638,69 @@ func hashString(s string) uint64 {
 	return h.Sum64()
 }
 
-func callerSite(skip int) string {
-	for i := skip; i < skip+8; i++ {
-		pc, file, line, ok := runtime.Caller(i)
-		if !ok {
+// site is a lazily resolved call site (resolving is expensive, recording is cheap).
+type site struct {
+	pcs [3]uintptr
+	n   int
+}
+
+func (st *site) record(skip int) {
+	st.n = runtime.Callers(skip+1, st.pcs[:])
+}
+
+func (st *site) String() string {
+	if st.n == 0 {
+		return "?"
+	}
+	frames := runtime.CallersFrames(st.pcs[:st.n])
+	for {
+		f, more := frames.Next()
+		if !strings.Contains(f.File, "/vz/") && f.Function != "" {
+			name := strings.TrimPrefix(f.Function, "go.nanomsg.org/mangos/v3/")
+			file := f.File
+			if j := strings.LastIndex(file, "/"); j >= 0 {
+				file = file[j+1:]
+			}
+			return fmt.Sprintf("%s(%s:%d)", name, file, f.Line)
+		}
+		if !more {
 			break
 		}
-		if strings.Contains(file, "/vz/") {
-			continue
-		}
-		fn := runtime.FuncForPC(pc)
-		name := ""
-		if fn != nil {
-			name = fn.Name()
-			name = strings.TrimPrefix(name, "go.nanomsg.org/mangos/v3/")
-		}
-		if j := strings.LastIndex(file, "/"); j >= 0 {
-			file = file[j+1:]
-		}
-		return fmt.Sprintf("%s(%s:%d)", name, file, line)
 	}
 	return "?"
+}
+
+// Func returns only the function name (stable across edits; used in signatures).
+func (st *site) Func() string {
+	s := st.String()
+	if i := strings.Index(s, "("); i > 0 {
+		return s[:i]
+	}
+	return s
+}
+
+func callerSite(skip int) string {
+	var st site
+	st.record(skip + 1)
+	return st.String()
+}
+
+func callerFunc(skip int) string {
+	var st site
+	st.record(skip + 1)
+	return st.Func()
+}
+
+// StripLine removes a trailing ":<line>" so that names are stable across edits.
+func StripLine(s string) string {
+	i := strings.LastIndex(s, ":")
+	if i < 0 || i == len(s)-1 {
+		return s
+	}
+	for _, c := range s[i+1:] {
+		if c < '0' || c > '9' {
+			return s
+		}
+	}
+	return s[:i]
 }
